@@ -344,9 +344,10 @@ def extras (pairs : List (Bytes × Bytes)) (udn : Option Bytes) (a0 : Addr) : Py
   if allPyWs location then extra
   else PyDict.set (PyDict.set extra kLocOrig (.str location)) kLocation (adjVal location a0)
 
-/-- `CaseInsensitiveDict(parsed_headers, **extra)` -/
+/-- `CaseInsensitiveDict(parsed_headers).combine_lower_dict(extra)`: the own data wins over received
+    headers in whatever case they are spelled -/
 def headersOf (pairs : List (Bytes × Bytes)) (udn : Option Bytes) (a0 : Addr) : Hdrs :=
-  CIDict.ofDict lower (PyDict.merge (mdToDict pairs) (extras pairs udn a0))
+  CIDict.combineLower (CIDict.ofDict lower (mdToDict pairs)) (extras pairs udn a0)
 
 /-- `_cached_decode_ssdp_packet(data, remote_addr_without_port)` -/
 def decodeCore (data : Bytes) (a0 : Addr) : Except Exn (Bytes × Hdrs) :=
